@@ -175,13 +175,27 @@ func (g *progGen) expr(depth int) *enode {
 func (g *progGen) toks(n *enode, out *[]string) {
 	emit := func(s ...string) { *out = append(*out, s...) }
 	// child printed with parentheses unless its exposed level is at least min
-	child := func(c *enode, min int) {
-		if exposedLevel(c) < min || rng.Intn(12) == 0 {
+	// redundant parentheses come in one to three layers
+	wrap := func(c *enode, layers int) {
+		for i := 0; i < layers; i++ {
 			emit("(")
-			g.toks(c, out)
+		}
+		g.toks(c, out)
+		for i := 0; i < layers; i++ {
 			emit(")")
+		}
+	}
+	extra := func() int {
+		if rng.Intn(10) == 0 {
+			return 1 + rng.Intn(3)
+		}
+		return 0
+	}
+	child := func(c *enode, min int) {
+		if exposedLevel(c) < min {
+			wrap(c, 1+extra())
 		} else {
-			g.toks(c, out)
+			wrap(c, extra())
 		}
 	}
 	switch n.kind {
@@ -204,11 +218,9 @@ func (g *progGen) toks(n *enode, out *[]string) {
 		// operand is a primary expression: atom, call, paren, index
 		c := n.kids[0]
 		if c.kind == "unary" || exposedLevel(c) < 9 {
-			emit("(")
-			g.toks(c, out)
-			emit(")")
+			wrap(c, 1+extra())
 		} else {
-			g.toks(c, out)
+			wrap(c, extra())
 		}
 	case "bin":
 		p := binPrec(n.op)
@@ -229,11 +241,9 @@ func (g *progGen) toks(n *enode, out *[]string) {
 		c := n.kids[0]
 		// base is an inner primary: atom, call or paren (one index only)
 		if c.kind == "ident" || c.kind == "qual" || c.kind == "lit" || c.kind == "call" || c.kind == "paren" {
-			g.toks(c, out)
+			wrap(c, extra())
 		} else {
-			emit("(")
-			g.toks(c, out)
-			emit(")")
+			wrap(c, 1+extra())
 		}
 		emit("[")
 		g.toks(n.kids[1], out)
@@ -788,10 +798,36 @@ func genCompileCases(tier string, emit func(op string, fields ...string)) {
 		toks = corruptTokens(toks)
 		emit("COMPILE", hexs(layout(toks, false)), "-")
 	}
+	// two compilations with the same options value: lets of the first must not be visible in the second
+	seqPairs := [][2]string{
+		{"let p = 7; let extra = 1 + 2; T | where a == p | take extra", "T | where a == p and b == extra"},
+		{"let n = 1; T | take n", "T | take n"},
+		{"let x = 'v'; T | where s == x", "let y = x; T | where s == y"},
+		{"T | where a == p", "let p = 2; T | where a == p"},
+	}
+	for _, pr := range seqPairs {
+		for _, ps := range paramSets {
+			emit("COMPILESEQ", hexs(pr[0]), hexs(pr[1]), fmtParams(ps))
+		}
+	}
+	for i := 0; i < n/20; i++ {
+		ps := pick(paramSets)
+		var names []string
+		for k := range ps {
+			names = append(names, k)
+		}
+		sort.Strings(names)
+		a := genProgram(names, 1+rng.Intn(2), false)
+		b := genProgram(append(names, "n", "lim", "thr", "x", "v1"), 1+rng.Intn(2), false)
+		emit("COMPILESEQ", hexs(a), hexs(b), fmtParams(ps))
+	}
 }
 
 // compileCorpus: hand-written edge cases and minimised past failures, run first.
 var compileCorpus = []string{
+	"T | where -((-a)) > 0", "T | where -(((-a))) > 0", "let n = ((-1)); T | where a > -n", "T | where ((-a))[1] == 2", "T | where +((+a))",
+	"T | extend k = -((-a)) | where k > 0 | take 3", "T | where ((not(a))) in (1)", "T | where -((not(a)))", "T | where ((iff(a, b, c))) + 1",
+	"let v = ((not(a))); T", "T | where (((a + b))) * c", "T | where a - (((b - c)))", "T | sort by ((-a)) asc", "T | take ((5))",
 	"T | where (a)", "T | where ((a))", "T | where -(-b)", "T | where -(+b)", "T | where (-a)[1]", "T | where -a[1]",
 	"let n = -5; T | where -n > 0", "let n = -5; T | where n[1] > 0", "let n = 5; T | take n", "let n = (5); T | take n",
 	"T | where not(a) in (1,2)", "T | where not(a) == b", "T | where -not(a)", "T | where not(a)[1]", "T | where not(not(a))",
